@@ -318,13 +318,13 @@ func suiteC11(cfg Config, res *Result) {
 		}
 		pc := ProgCase{Src: entry, FromFile: true, Loaders: loaders, Ctx: &ct, Label: fmt.Sprintf("loaders=%d", nl)}
 		cases = append(cases, pc)
-		exps[pc.Req()] = expect{out, ok, refs, nontriv}
+		exps[pc.Key()] = expect{out, ok, refs, nontriv}
 	}
 	progCompareLog = true
 	defer func() { progCompareLog = false }()
-	runProgCases(cfg, res, cases, "c11", func(c ProgCase, o ImplOutcome) bool { return exps[c.Req()].nontriv },
+	runProgCases(cfg, res, cases, "c11", func(c ProgCase, o ImplOutcome) bool { return exps[c.Key()].nontriv },
 		func(c ProgCase, o ImplOutcome) *Finding {
-			e := exps[c.Req()]
+			e := exps[c.Key()]
 			mk := func(sig, impl, want string) *Finding {
 				return &Finding{Kind: "oracle", Proj: "loaders", Sig: sig, Case: c.String(), Impl: impl, Model: want}
 			}
@@ -428,11 +428,11 @@ func c11Layouts(cfg Config, res *Result) {
 		ct := CtxTerm{Names: []string{"lz"}, Vals: []VT{lzv}}
 		pc := ProgCase{Src: "/" + pd + "/page.tpl", FromFile: true, Loaders: []map[string]string{files}, Ctx: &ct, Label: "layouts"}
 		cases = append(cases, pc)
-		wants[pc.Req()] = want
+		wants[pc.Key()] = want
 	}
 	runProgCases(cfg, res, cases, "c11l", func(c ProgCase, o ImplOutcome) bool { return true },
 		func(c ProgCase, o ImplOutcome) *Finding {
-			want := wants[c.Req()]
+			want := wants[c.Key()]
 			if o.Class != "ok" || o.Out != want {
 				return &Finding{Kind: "oracle", Proj: "loaders", Sig: "c11-relative-name-resolution", Case: c.String(), Impl: o.Canon() + " " + o.Msg, Model: "every name resolves against the template it is written in: ok " + hxb(want)}
 			}
